@@ -43,44 +43,52 @@ try:
             FEATS += "," + extra
 except Exception:
     pass
+check_only = "--check-only" in sys.argv
 res = {}
-sh("git checkout -- . && rm -rf tests/verif_demo.rs")
-(wt / "tests").mkdir(exist_ok=True)
-shutil.copy(src / "demo.rs", wt / "tests" / "verif_demo.rs")
-rc, out, t = sh(f"cargo test --offline --features {FEATS} --test verif_demo -- --test-threads 1", timeout=900)
-res["demo_without_patch"] = {"rc": rc, "wall_s": round(t, 1), "tail": out[-600:]}
-rc, out, t = sh(f"git apply {src/'patch.diff'}")
-res["apply"] = rc
-rc, out, t = sh("cargo test --workspace --offline --lib --no-fail-fast 2>&1 | tail -15")
-res["pinned_suite_with_patch"] = {"rc": rc, "passed_failed": passed_count(out), "tail": out[-400:]}
-rc, out, t = sh(f"cargo build --offline --features {FEATS} 2>&1 | tail -3")
-res["feature_build_with_patch"] = rc
-rc, out, t = sh(f"cargo test --offline --features {FEATS} --test verif_demo -- --test-threads 1", timeout=900)
-res["demo_with_patch"] = {"rc": rc, "wall_s": round(t, 1), "tail": out[-1200:]}
-sh("git checkout -- . && rm -rf tests")
+if not check_only:
+  sh("git checkout -- . && rm -rf tests/verif_demo.rs")
+  (wt / "tests").mkdir(exist_ok=True)
+  shutil.copy(src / "demo.rs", wt / "tests" / "verif_demo.rs")
+  rc, out, t = sh(f"cargo test --offline --features {FEATS} --test verif_demo -- --test-threads 1", timeout=900)
+  res["demo_without_patch"] = {"rc": rc, "wall_s": round(t, 1), "tail": out[-600:]}
+  rc, out, t = sh(f"git apply {src/'patch.diff'}")
+  res["apply"] = rc
+  rc, out, t = sh("cargo test --workspace --offline --lib --no-fail-fast 2>&1 | tail -15")
+  res["pinned_suite_with_patch"] = {"rc": rc, "passed_failed": passed_count(out), "tail": out[-400:]}
+  rc, out, t = sh(f"cargo build --offline --features {FEATS} 2>&1 | tail -3")
+  res["feature_build_with_patch"] = rc
+  rc, out, t = sh(f"cargo test --offline --features {FEATS} --test verif_demo -- --test-threads 1", timeout=900)
+  res["demo_with_patch"] = {"rc": rc, "wall_s": round(t, 1), "tail": out[-1200:]}
+  sh("git checkout -- . && rm -rf tests")
 
-ok = (res["demo_without_patch"]["rc"] == 0 and res["apply"] == 0 and res["pinned_suite_with_patch"]["passed_failed"][0] >= 30
-      and res["pinned_suite_with_patch"]["passed_failed"][1] == 0 and res["feature_build_with_patch"] == 0 and res["demo_with_patch"]["rc"] != 0)
-res["confirmed"] = ok
-print(json.dumps({k: (v if not isinstance(v, dict) else {kk: vv for kk, vv in v.items() if kk != "tail"}) for k, v in res.items()}, indent=1))
-if not ok:
-    print("NOT CONFIRMED", pid, x)
-    print(res["demo_without_patch"]["tail"][-500:]); print(res["demo_with_patch"]["tail"][-500:])
-    sys.exit(1)
+  ok = (res["demo_without_patch"]["rc"] == 0 and res["apply"] == 0 and res["pinned_suite_with_patch"]["passed_failed"][0] >= 30
+        and res["pinned_suite_with_patch"]["passed_failed"][1] == 0 and res["feature_build_with_patch"] == 0 and res["demo_with_patch"]["rc"] != 0)
+  res["confirmed"] = ok
+  print(json.dumps({k: (v if not isinstance(v, dict) else {kk: vv for kk, vv in v.items() if kk != "tail"}) for k, v in res.items()}, indent=1))
+  if not ok:
+      print("NOT CONFIRMED", pid, x)
+      print(res["demo_without_patch"]["tail"][-500:]); print(res["demo_with_patch"]["tail"][-500:])
+      sys.exit(1)
 
-dst.mkdir(parents=True, exist_ok=True)
-shutil.copy(src / "patch.diff", dst / "patch.diff")
-shutil.copy(src / "demo.rs", dst / "demo.rs")
-agent_meta = json.loads((src / "meta.json").read_text())
-meta = {"property": pid, "variant": x,
-        "summary": agent_meta.get("summary"), "why_it_breaks": agent_meta.get("why_it_breaks"),
-        "needs_to_manifest": agent_meta.get("needs_to_manifest"), "features_needed_for_demo": agent_meta.get("features_needed_for_demo"),
-        "confirmed_by": {"what_was_run": [
-            f"cargo test --offline --features {FEATS} --test verif_demo (demo, without patch) -> rc {res['demo_without_patch']['rc']}",
-            f"git apply patch.diff; cargo test --workspace --offline --lib -> {res['pinned_suite_with_patch']['passed_failed']} (passed, failed suites)",
-            f"cargo build --offline --features {FEATS} -> rc {res['feature_build_with_patch']}",
-            f"demo with patch -> rc {res['demo_with_patch']['rc']}"],
-            "demo_failure_tail": res["demo_with_patch"]["tail"][-500:]}}
+if check_only:
+    # re-run only the check against the filed seed (regression run of the whole collection): keep everything else of meta.json
+    meta = json.loads((dst / "meta.json").read_text())
+    for k in ("moot_after_fix",):
+        pass
+else:
+  dst.mkdir(parents=True, exist_ok=True)
+  shutil.copy(src / "patch.diff", dst / "patch.diff")
+  shutil.copy(src / "demo.rs", dst / "demo.rs")
+  agent_meta = json.loads((src / "meta.json").read_text())
+  meta = {"property": pid, "variant": x,
+          "summary": agent_meta.get("summary"), "why_it_breaks": agent_meta.get("why_it_breaks"),
+          "needs_to_manifest": agent_meta.get("needs_to_manifest"), "features_needed_for_demo": agent_meta.get("features_needed_for_demo"),
+          "confirmed_by": {"what_was_run": [
+              f"cargo test --offline --features {FEATS} --test verif_demo (demo, without patch) -> rc {res['demo_without_patch']['rc']}",
+              f"git apply patch.diff; cargo test --workspace --offline --lib -> {res['pinned_suite_with_patch']['passed_failed']} (passed, failed suites)",
+              f"cargo build --offline --features {FEATS} -> rc {res['feature_build_with_patch']}",
+              f"demo with patch -> rc {res['demo_with_patch']['rc']}"],
+              "demo_failure_tail": res["demo_with_patch"]["tail"][-500:]}}
 if run_check:
     # the checks run against a scratch clone of /repo's HEAD with the patch applied (VERIF_REPO), so that /repo's
     # working tree is never disturbed while other work uses it
